@@ -228,6 +228,18 @@ def r16_3(run, model, mir):
                 guards["duplicate"] = i
             if re.fullmatch(r"!([a-z_]+)&&!([a-z_]+)", t) and has_ret:
                 guards["orphan"] = i
+    # the duplicate test has to consult the table the insert writes (modulo current()/current_mut()): testing another environment
+    # (e.g. the one the trait was found in) never sees this package's own earlier impl
+    def _table(txt, op):
+        m_ = re.search(r"([A-Za-z_]\w*(?:\s*\.\s*\w+(?:\(\))?)*)\s*\.\s*trait_impls\s*\.\s*" + op + r"\s*\(", txt)
+        return re.sub(r"\s+", "", m_.group(1)).replace("current_mut()", "current()") if m_ else None
+    t_ins = _table(run.facts.text(TL, d.body["sp"]), "insert")
+    t_dup = None
+    if guards["duplicate"] is not None:
+        t_dup = _table(run.facts.text(TL, stmts[guards["duplicate"]]["expr"]["cond"]["sp"]), "contains_key")
+    run.ob("R16.3", "define_trait_impl|duplicate test reads the table the insert writes", t_ins is not None and t_ins == t_dup, site(TL, d.node["sp"]),
+           f"insert into `{t_ins}.trait_impls`, duplicate test on `{t_dup}.trait_impls`",
+           witness="a second `impl TraitPkg::Show for Item` in the same package is accepted and replaces the first: the meaning of a call depends on file order")
     for g, i in guards.items():
         ok = ins is not None and i is not None and i < ins
         run.ob("R16.3", f"define_trait_impl|{g} test returns before the insert", ok, site(TL, d.node["sp"]),
@@ -348,4 +360,7 @@ def run(run, model):
     run.try_rule(r16_3, model, mir)
     run.try_rule(r16_4, model)
     run.try_rule(r16_5, model)
+    from rules import c04
+    run.rule("R16.6", "a package missing from the link inputs is reported, not skipped (shared with C04 R04.8)")
+    run.try_rule(c04.r04_8, model)
     run.assume("the typer resolves package-qualified names only through the dependency environments it is given (R16.5 keeps those equal to the imports)")
